@@ -215,6 +215,8 @@ def run(ctx):
     from props import fringe
     fringe.case_twin_tree(ctx, 'wcmatch')
     fringe.newline_wcmatch(ctx)
+    from props import glue
+    glue.interleaved_walkers(ctx)
     return ctx.finish(RULE)
 
 
